@@ -96,7 +96,7 @@ def check_tables(rep, facts, rule='R02.1'):
         'aead::AeadKey': ('0', 'generic_array::GenericArray<u8, <<A as aead::Aead>::AeadImpl as aead::KeySizeUser>::KeySize>', 'Nk'),
         'aead::AeadNonce': ('0', 'generic_array::GenericArray<u8, <<A as aead::Aead>::AeadImpl as aead::AeadCore>::NonceSize>', 'Nn'),
         'aead::AeadTag': ('0', 'generic_array::GenericArray<u8, <<A as aead::Aead>::AeadImpl as aead::AeadCore>::TagSize>', 'Nt'),
-        'setup::ExporterSecret': ('0', 'generic_array::GenericArray<u8, <<K as kdf::Kdf>::HashImpl as digest::OutputSizeUser>::OutputSize>', 'Nh'),
+        'setup::ExporterSecret': ('0', 'generic_array::GenericArray<u8, <<Kdf as kdf::Kdf>::HashImpl as digest::OutputSizeUser>::OutputSize>', 'Nh'),
         'kem::SharedSecret': ('0', 'generic_array::GenericArray<u8, <Kem as kem::Kem>::NSecret>', 'Nsecret'),
     }
     for path, (fname, ty, what) in want.items():
